@@ -64,11 +64,17 @@ def _run_group(group, work):
         return None, ' '.join(cmd)
     m = re.search(r'^FOUND (\{.*\})\s*$', p.stdout, re.M)
     if not m:
+        nf = re.search(r'^NOTFOUND tried=(\d+)', p.stdout, re.M)
+        _run_group.last_tried = int(nf.group(1)) if nf else None     # None: the harness did not build / finish
         return None, ' '.join(cmd)
+    _run_group.last_tried = None
     try:
         return json.loads(m.group(1)), ' '.join(cmd)
     except Exception:
         return {'raw': m.group(1)}, ' '.join(cmd)
+
+
+_run_group.last_tried = None
 
 
 def search(prop, failed, work):
